@@ -656,7 +656,7 @@ pub fn assumed_dangling_slice<'a, T>(len: usize) -> (r: &'a [T])
     ensures r@.len() == len,
 { unimplemented!() }
 
-//@item epserde/src/deser/helpers.rs props=C02,C07,C11 name=deserialize_eps_slice_zero optional <<pub fn deserialize_eps_slice_zero<'a, T: ZeroCopy>(>>
+//@item epserde/src/deser/helpers.rs props=C02,C03,C07,C11 name=deserialize_eps_slice_zero optional <<pub fn deserialize_eps_slice_zero<'a, T: ZeroCopy>(>>
 //@  replace <<deser::Result>> <<Result>>
 //@  replace <<unsafe { core::slice::from_raw_parts(core::ptr::NonNull::<T>::dangling().as_ptr(), len) }>> <<assumed_dangling_slice::<T>(len)>>
 //@  replace <<debug_assert!(pre.is_empty());>> <<>>
